@@ -607,6 +607,8 @@ def _get_fcp(
             logger.log_lark(filename.name, e),
             _syntax_error_token(e, source, filename),
         )
+    except RecursionError:
+        return error(f"Failed to parse {filename.name}: types are nested too deeply")
 
     parser_context = ParserContext()
 
@@ -616,6 +618,8 @@ def _get_fcp(
         ).transform(fcp_ast)
     except VisitError as e:
         return _visit_error(e, filename)
+    except RecursionError:
+        return error(f"Failed to parse {filename.name}: types are nested too deeply")
 
     return Ok(fcp.attempt())
 
